@@ -46,10 +46,25 @@ def check(case):
     if early:
         # the caller inspects - and edits - the dictionary of equivalences BEFORE applying the map
         xc.equivalences_of(M, edit="reverse" if early == 1 else "clear")
-    out = lib("map-apply", M, applied_to)
-    got = positions(out)
     rpos = np.array(case["ref"]["coords"], float)
     tpos = np.array(case["tgt"]["coords"], float)
+    via_alignment = not case.get("disturb") and case.get("prior_seed", 0) % 5 == 4
+    if via_alignment:
+        # the same map reached through Alignment.init_exchange_map (the route of Manager and of the command line): built
+        # once, then the end molecule is displaced in place and the map is asked for again with the same scale - the law
+        # holds for the positions at the LAST construction
+        from gaddlemaps import Alignment
+        ali = lib("alignment", Alignment, ref, tgt)
+        lib("init-map", ali.init_exchange_map, s)
+        shift = np.round(np.random.default_rng(case.get("prior_seed", 0)).uniform(-0.4, 0.4, 3), 3)
+        lib("move-end", ali.end.move, shift.copy())
+        lib("init-map-again", ali.init_exchange_map, s)
+        M = ali.exchange_map
+        applied_to = ali.start
+        tpos = tpos + shift
+        case = dict(case, tgt=dict(case["tgt"], coords=tpos.tolist()))
+    out = lib("map-apply", M, applied_to)
+    got = positions(out)
     anchors, assign = xc.oracle_assignment(case)
     chosen = xc.check_equivalences(M, assign)
     if got.shape != tpos.shape:
@@ -76,6 +91,7 @@ def check(case):
         classes.append("tie")
     classes.append("after-other-call" if prior else "first-call")
     classes.append("equivalences-edited-before-use" if early else "equivalences-read-after-use")
+    classes.append("route:alignment" if via_alignment else "route:ExchangeMap")
     classes.append("construction-objects:" + (case.get("disturb") or "untouched"))
     nt = len(anchors) >= 2 and len(tpos) >= 2 and (s != 1.0 or case["geom"] != "generic")
     return {"nontrivial": nt, "classes": classes}
